@@ -6,6 +6,7 @@ import (
 	"fmt"
 	"github.com/shurcooL/go-goon"
 	"github.com/ugorji/go/codec"
+	"math"
 	"reflect"
 	"sort"
 	"strconv"
@@ -787,6 +788,9 @@ func SexpToGoStructs(
 	case *SexpFloat:
 		switch targVa.Elem().Interface().(type) {
 		case int64:
+			if src.Val != math.Trunc(src.Val) || src.Val < -9.2e18 || src.Val > 9.2e18 {
+				return nil, fmt.Errorf("float %v is not an integer: cannot store it into an int64 field", src.Val)
+			}
 			targVa.Elem().SetInt(int64(src.Val))
 		case float64:
 			targVa.Elem().SetFloat(float64(src.Val))
